@@ -786,6 +786,22 @@ func (c *fileCtx) rewriteSelect(st *ast.SelectStmt) ast.Stmt {
 		cs.Skipped = append(cs.Skipped, c.site(st.Pos())+" select with labels")
 		return st
 	}
+	// Go evaluates the channel and value expressions of a select exactly once; polling would evaluate
+	// them again, so only selects whose communication expressions are free of calls are rewritten
+	for _, cc := range comm {
+		pure := true
+		ast.Inspect(cc.Comm, func(n ast.Node) bool {
+			switch n.(type) {
+			case *ast.CallExpr, *ast.FuncLit:
+				pure = false
+			}
+			return pure
+		})
+		if !pure {
+			cs.Skipped = append(cs.Skipped, c.site(st.Pos())+" select with a call in a communication clause")
+			return st
+		}
+	}
 	site := c.site(st.Pos())
 	c.needSimrt = true
 	cs.Sites["R7b_select"]++
@@ -811,5 +827,51 @@ func (c *fileCtx) rewriteSelect(st *ast.SelectStmt) ast.Stmt {
 		stmts = append(stmts, &ast.IfStmt{Cond: &ast.UnaryExpr{Op: token.NOT, X: done}, Body: &ast.BlockStmt{List: []ast.Stmt{sw}}})
 	}
 	stmts = append(stmts, &ast.IfStmt{Cond: &ast.UnaryExpr{Op: token.NOT, X: done}, Body: &ast.BlockStmt{List: []ast.Stmt{st}}})
+	if selectTerminates(st) {
+		// the original select was a terminating statement (every case returns): keep the block terminating
+		stmts = append(stmts, &ast.ExprStmt{X: &ast.CallExpr{Fun: ast.NewIdent("panic"), Args: []ast.Expr{lit("simrt: unreachable")}}})
+	}
 	return &ast.BlockStmt{List: stmts}
+}
+
+// selectTerminates: every clause ends in return / panic / goto and nothing breaks out of the select.
+func selectTerminates(st *ast.SelectStmt) bool {
+	for _, cl := range st.Body.List {
+		cc := cl.(*ast.CommClause)
+		if len(cc.Body) == 0 {
+			return false
+		}
+		switch last := cc.Body[len(cc.Body)-1].(type) {
+		case *ast.ReturnStmt:
+		case *ast.BranchStmt:
+			if last.Tok != token.GOTO {
+				return false
+			}
+		case *ast.ExprStmt:
+			call, ok := last.X.(*ast.CallExpr)
+			if !ok {
+				return false
+			}
+			if id, ok := call.Fun.(*ast.Ident); !ok || id.Name != "panic" {
+				return false
+			}
+		default:
+			return false
+		}
+	}
+	hasBreak := false
+	ast.Inspect(st.Body, func(n ast.Node) bool {
+		switch x := n.(type) {
+		case *ast.ForStmt, *ast.RangeStmt, *ast.SwitchStmt, *ast.TypeSwitchStmt, *ast.FuncLit:
+			return false
+		case *ast.SelectStmt:
+			return x == st
+		case *ast.BranchStmt:
+			if x.Tok == token.BREAK {
+				hasBreak = true
+			}
+		}
+		return true
+	})
+	return !hasBreak
 }
